@@ -341,7 +341,7 @@ func Run(r *fw.Run) {
 	r.Assume = []string{"classification of the junk alphabet: severe = YAML syntax error file, YAML without kind, NetworkPolicy / Deployment failing schema conversion; irrelevant (no severe entry) = ConfigMap, unknown CRD kind, a Service of a foreign API group named like the real Service, Kustomization / kind Cluster config without metadata.name, .txt file, empty file, JSON ConfigMap",
 		"syntactically broken input is placed as its own file (as the statement says); only document junk is added to existing manifest files"}
 	if r.Quick() {
-		r.SetBudget(150 * time.Second)
+		r.SetBudget(300 * time.Second)
 	} else {
 		r.SetBudget(30 * time.Minute)
 	}
